@@ -459,3 +459,51 @@ def plan_C08(tier, seed):
         "jobs": jobs, "primary_jobs": ["range-chk", "exact-chk"], "eval_counters": ["located_errors", "parses"], "floors": fl,
         "assumptions": ["catalogue entries whose error position is ambiguous (deleted newline, tab after a BTOR2 symbol, doubled space before free text) are excluded"],
     }
+
+
+def plan_C03(tier, seed):
+    n = q(tier, 800_000, 40_000_000)
+    jobs = [
+        Job("roundtrip-chk", "chk", "c03", n, {}),
+        Job("roundtrip-rel", "rel", "c03", n, {}),
+    ]
+    fl = dict(PARSER_FLOORS)
+    fl.update({"roundtrips": q(tier, 1_200_000, 60_000_000), "direction2_accepted_texts": 100_000,
+               "btor_const_ctor_accepted": 10_000, "btor_const_ctor_refused": 1000,
+               "choice:document_larger_than_writer_buffer": 1000, "choice:empty_clause": 1000, "choice:no_header": 1000,
+               "choice:latch_reset_0": 1000, "choice:latch_reset_1": 1000, "choice:latch_uninitialised": 1000,
+               "choice:gate_inputs_given_smaller_first": 1000, "choice:comment": 1000,
+               "choice:btor_symbol": 1000, "choice:btor_node_comment": 1000, "choice:btor_comment_line": 1000,
+               "distinct_nontrivial": q(tier, 400_000, 10_000_000)})
+    for k in range(1, 11):
+        fl["choice:varint_len:%d" % k] = 50
+    for k in range(5, 10):
+        fl["choice:header_fields_written:%d" % k] = 100
+    for k in "ilobcjf":
+        fl["choice:symbol_kind:" + k] = 1000
+    for t in ["i8", "i16", "i32", "i64", "isize"]:
+        fl["choice:extreme_literal:" + t] = 1000
+    btor = ["sort_bitvec", "sort_array", "const", "constd", "consth", "one", "ones", "zero", "input", "state", "uext", "sext",
+            "slice", "init", "next", "bad", "constraint", "fair", "output", "justice", "not", "inc", "dec", "neg", "redand",
+            "redor", "redxor", "iff", "implies", "eq", "neq", "ugt", "sgt", "ugte", "sgte", "ult", "slt", "ulte", "slte", "and",
+            "nand", "nor", "or", "xnor", "xor", "rol", "ror", "sll", "sra", "srl", "add", "mul", "udiv", "sdiv", "smod", "urem",
+            "srem", "sub", "uaddo", "saddo", "sdivo", "umulo", "smulo", "usubo", "ssubo", "concat", "read", "ite", "write"]
+    for k in btor:
+        fl["choice:btor:" + k] = 100
+    return {
+        "level": "exploration",
+        "rule": "direction 1 (2/3 of the cases): typed values are built directly from abstract documents (never by parsing) - "
+                "CNF/WCNF/GCNF headers and clauses over all five literal types with extreme literals, weights and groups over "
+                "all of u64, empty clauses, with/without header; AIGER Aig (ascii write_aig) and OrderedAig (ascii and binary "
+                "write_ordered_aig) with every count 0/1/2/few/many independently (B,C,J,F larger than M-I-L and than L), all "
+                "latch reset forms, symbols of every kind at index 0/count-1/random, arbitrary UTF-8 names and comments, "
+                "trailing-zero header fields, delta codes of every 7-bit length 1..10 (huge input counts), gate inputs given "
+                "in either order; BTOR2 lines of every operator / sort / output kind with ids up to u64::MAX, constants built "
+                "through the validating TryFrom constructors from candidate strings that also contain non-digits - written by "
+                "the real writers through a DeferredWriter (documents > 16 KiB included) and parsed back: every field equal "
+                "(canonical rendering) and a clean end. direction 2 (1/3): every text of the shared corpus that a parser "
+                "accepts is parsed to typed values, written and parsed again. Non-trivial = at least 2 items; distinct by hash "
+                "of the written bytes; one counter per value-dependent encoding choice, each with a floor.",
+        "jobs": jobs, "primary_jobs": ["roundtrip-chk"], "eval_counters": ["roundtrips"], "floors": fl,
+        "assumptions": ["values constructible only by struct literal outside the grammar (Justice(&[]), empty symbol, symbol starting with ';', names with newlines) are not in the domain"],
+    }
